@@ -1,11 +1,12 @@
 #!/bin/sh
-# runs every check of the given tier (default quick) and prints one line per check
+# runs every check of the given tier (default quick) and prints one line per check; logs under /tmp/verif_logs_<tier>/
 tier="${1:-quick}"
-cd /verif
+cd "$(dirname "$0")" || exit 2
+L=/tmp/verif_logs_$tier; mkdir -p $L
 for i in 01 02 03 04 05 06 07 08 09 10 11 12 13 14 15 16 17 18 19 20; do
   s=$(date +%s)
-  ./check C$i --tier $tier > /tmp/verif_run_C$i.log 2>&1
+  ./check C$i --tier $tier > $L/C$i.log 2>&1
   rc=$?
   e=$(date +%s)
-  echo "C$i rc=$rc $((e-s))s $(grep -c '^VIOLATION' /tmp/verif_run_C$i.log) violations; $(tail -1 /tmp/verif_run_C$i.log | cut -c1-160)"
+  echo "C$i rc=$rc $((e-s))s $(grep -c '^VIOLATION' $L/C$i.log) violations; $(tail -1 $L/C$i.log | cut -c1-200)"
 done
